@@ -14,16 +14,19 @@ OPS = 'tracklib.core.operators'
 
 EXPLANATION = (
     "Invariant-preservation argument decided statically: I = (name->column map is a bijection onto 0..len-1) and (every "
-    "observation has len(map) feature values).  Every operation that can touch the storage is shown to preserve I and to "
-    "write only the column it names: create registers column len(map) and appends exactly one value per observation on "
-    "every branch; delete reads the column before unregistering the name, deletes that column in every observation and "
-    "decrements exactly the larger column numbers by one; update / per-observation set / algorithm features store at "
-    "map[name]; the sites of the repository that mutate Obs.features or the map are recomputed and must all belong to "
-    "this API; every operator class writes only its output column (scratch names are '#'-prefixed and removed) and no "
-    "operator or AF method writes a position, a timestamp or the observation list; expression temporaries are "
-    "'#'-prefixed and the clean-up loop runs on every exit of operate(str).")
-ASSUMPTIONS = ["observations are not shared between tracks within one history (aliasing through extract/%/>/+ is outside the single-track histories of the property)"]
-TECHNIQUE = "who-may-write census (F8), invariant preservation on every path of the writers (F6/F3), write-effect summaries over all operator classes (F1), must-run clean-up rule (F6)"
+    "observation has len(map) feature values) and (reading a name returns what was last written under it).  (H) the map can take 16 "
+    "shapes over three names (ordered subsets); from EACH of them every operation of the feature API (create from list / scalar, remove, "
+    "update, per-observation set, bracket assignment incl. '#DELETE', utils.addListToAF with a list and with a non-list sequence, linear "
+    "spatial resampling which resets the table) is applied - the repository's Track class and helpers are interpreted by tlint.orders "
+    "on 3- and 1-observation tracks of opaque values, nothing is executed - and compared with the name -> values model; the result map "
+    "is again one of the 16, so by induction the invariant and the model hold after any history of these operations; derived tracks "
+    "(extract) do not share the map.  (W) the sites of the repository that mutate Obs.features or the map are recomputed and must all "
+    "belong to this API.  (F) write-effect summaries: every operator class writes only its output column and no operator or AF method "
+    "writes a position, a timestamp or the observation list.  (T, E) expression temporaries are '#'-prefixed, removed on every exit of "
+    "operate(str); the '=' arm stores for existing names and removes only temporaries.")
+ASSUMPTIONS = ["the operations of (H) depend on the table only through the name -> column map (values are opaque tokens; one observation holds equal values in two columns to expose by-value deletion)",
+               "operators and the expression evaluator are covered by the effect summaries (F) and the clean-up rules (T, E), not by (H)"]
+TECHNIQUE = "inductive invariant: abstract interpretation of every API operation from every reachable table shape (F3/F6), who-may-write census (F8), write-effect summaries over all operator classes (F1), must-run clean-up rule (F6)"
 
 
 def vr(v):
@@ -522,11 +525,262 @@ def rule_E(ctx):
     c02.rule_N(_Proxy(ctx))
 
 
+def rule_H(ctx):
+    """C01.H every feature operation, from every reachable table state, implements the name -> values model and keeps the table aligned.
+
+    The feature table of a track is the map name -> column plus one value list per observation.  What an operation does depends on the
+    table only through that map (values are opaque).  For three names there are 16 reachable maps (the ordered subsets of {a, b, c}: a
+    removal closes the gap, a creation takes the next column).  From EACH of them every operation of the feature API - interpreted from
+    the repository's Track class and utils.addListToAF by tlint.orders, nothing executed - is applied to a 3-observation track whose
+    values are distinct tokens, and the result is compared with the model: same names listed, one value per listed name in every
+    observation, reading a name returns what was last written under it, the other names / positions / timestamps untouched, and the new
+    map is again one of the 16.  By induction on the length of the history this covers every sequence of these operations.  Tracks
+    derived from it (extract) must not see later table changes and vice versa."""
+    import itertools
+    from .. import absint, orders
+    fT = ctx.prog.cls(TRACK)
+    f0 = ctx.prog.func(TRACK + '.createAnalyticalFeature')
+    fn = absint.funcs(ctx, 'tracklib.core.track')
+    T = absint.classref(ctx, TRACK, fn)
+    NAMES = ['a', 'b', 'c']
+
+    class Tok(orders.PyStub):
+        """an opaque value"""
+        def __init__(self, *t):
+            self.t = t
+
+        def __eq__(self, o):
+            return isinstance(o, Tok) and o.t == self.t
+
+        def __ne__(self, o):
+            return not self.__eq__(o)
+
+        def __hash__(self):
+            return hash(self.t)
+
+        def __repr__(self):
+            return '<%s>' % ' '.join(str(x) for x in self.t)
+
+        def copy(self):
+            return Tok(*self.t)
+
+    class ENUCoords(orders.PyStub):
+        """a position with geometry (needed by resampling); equal when the coordinates are"""
+        isa = ('ENUCoords',)
+
+        def __init__(self, x, y, z=0.0):
+            self.c = (float(x), float(y), float(z))
+
+        def getX(self):
+            return self.c[0]
+
+        def getY(self):
+            return self.c[1]
+
+        def getZ(self):
+            return self.c[2]
+
+        def distance2DTo(self, o):
+            return ((self.c[0] - o.c[0]) ** 2 + (self.c[1] - o.c[1]) ** 2) ** 0.5
+
+        def distanceTo(self, o):
+            return sum((a_ - b_) ** 2 for a_, b_ in zip(self.c, o.c)) ** 0.5
+
+        def copy(self):
+            return ENUCoords(*self.c)
+
+        def __eq__(self, o):
+            return isinstance(o, ENUCoords) and o.c == self.c
+
+        def __hash__(self):
+            return hash(self.c)
+
+    class Stamp(orders.PyStub):
+        isa = ('ObsTime',)
+
+        def __init__(self, t):
+            self.t = float(t)
+            self.zone = 0
+
+        def toAbsTime(self):
+            return self.t
+
+        def copy(self):
+            return Stamp(self.t)
+
+        def __eq__(self, o):
+            return isinstance(o, Stamp) and o.t == self.t
+
+        def __hash__(self):
+            return hash(self.t)
+
+    class O(orders.PyStub):
+        isa = ('Obs',)
+
+        def __init__(self, k, stamp=None):
+            if isinstance(k, ENUCoords):
+                self.k, self.position, self.timestamp = None, k, stamp
+            else:
+                self.k = k
+                self.position = ENUCoords(10.0 * k, 3.0 * k, 0.0)
+                self.timestamp = Stamp(100.0 * k)
+            self.features = []
+
+        def distanceTo(self, o):
+            return self.position.distanceTo(o.position)
+
+        def distance2DTo(self, o):
+            return self.position.distance2DTo(o.position)
+
+        def copy(self):
+            o = O(self.position.copy(), self.timestamp.copy())
+            o.k = self.k
+            o.features = list(self.features)
+            return o
+
+        def __getitem__(self, j):
+            return self.features[j]
+
+        def __setitem__(self, j, v):
+            self.features[j] = v
+
+    class ArrayLike(orders.PyStub):
+        """a sequence that is not a Python list (what numpy-based operators hand to addListToAF)"""
+        isa = ('ndarray',)
+
+        def __init__(self, vals):
+            self.vals = list(vals)
+
+        def __getitem__(self, k):
+            return self.vals[k]
+
+        def __len__(self):
+            return len(self.vals)
+
+        def __iter__(self):
+            return iter(self.vals)
+
+    fn.update({'ENUCoords': ENUCoords, 'Obs': lambda p_, t_=None, *a_: O(p_, t_)})
+    fn['ObsTime'] = type('ObsTimeRef', (orders.PyStub,), {'readUnixTime': staticmethod(lambda t_: Stamp(t_))})()
+    fn['__globals__']['ObsTime'] = fn['ObsTime']
+
+    def build(state, NOBS):
+        t = T([O(k) for k in range(NOBS)], 'u', 't')
+        dk = [k for k in t.fields if 'analyticalFeaturesDico' in k]
+        if len(dk) != 1:
+            raise shape_error('Track: name -> column map attribute not found', f0.loc())
+        t.fields[dk[0]] = {nm: col for col, nm in enumerate(state)}
+        # observation 0 holds the SAME value in columns 0 and 2 (a deletion by value instead of by position shows)
+        val = lambda nm, k: Tok('tie') if (k == 0 and state.index(nm) in (0, 2)) else Tok('old', nm, k)
+        for o in t.fields['_Track__POINTS']:
+            o.features = [val(nm, o.k) for nm in state]
+        model = {nm: [val(nm, k) for k in range(NOBS)] for nm in state}
+        return t, model, dk[0]
+
+    def observe(t, dk, NOBS):
+        d = t.fields[dk]
+        cols = sorted(d.values()) if isinstance(d, dict) else None
+        names = t.call('getListAnalyticalFeatures')
+        vals = {}
+        for nm in names:
+            vals[nm] = [t.call('getObsAnalyticalFeature', nm, k) for k in range(NOBS)]
+        widths = [len(o.features) for o in t.fields['_Track__POINTS']]
+        frame = [(o.position, o.timestamp) for o in t.fields['_Track__POINTS']]
+        return names, vals, widths, cols, frame
+    states = [()]
+    for r in (1, 2, 3):
+        states += list(itertools.permutations(NAMES, r))
+    bad = None
+    n_tr = 0
+    for NOBS in (3, 1):
+      new = lambda tag: [Tok('new', tag, k) for k in range(NOBS)]
+      LAST = NOBS - 1
+      ops = []
+      for nm in NAMES:
+          ops.append(('create %s <- list' % nm, lambda t, m, nm=nm: (t.call('createAnalyticalFeature', nm, new(nm)), m.setdefault(nm, new(nm)))))
+          ops.append(('create %s <- scalar' % nm, lambda t, m, nm=nm: (t.call('createAnalyticalFeature', nm, Tok('scalar', nm)), m.setdefault(nm, [Tok('scalar', nm)] * NOBS))))
+          ops.append(('remove %s' % nm, lambda t, m, nm=nm: (t.call('removeAnalyticalFeature', nm), m.pop(nm)) if nm in m else None))
+          ops.append(('update %s <- list' % nm, lambda t, m, nm=nm: (t.call('updateAnalyticalFeature', nm, new(nm)), m.__setitem__(nm, new(nm))) if nm in m else None))
+          ops.append(('update %s <- scalar' % nm, lambda t, m, nm=nm: (t.call('updateAnalyticalFeature', nm, Tok('scalar', nm)), m.__setitem__(nm, [Tok('scalar', nm)] * NOBS)) if nm in m else None))
+          ops.append(('setObs %s[last]' % nm, lambda t, m, nm=nm: (t.call('setObsAnalyticalFeature', nm, LAST, Tok('one', nm)), m[nm].__setitem__(LAST, Tok('one', nm))) if nm in m else None))
+          ops.append(('track[%s] = list' % nm, lambda t, m, nm=nm: (t.call('__setitem__', nm, new(nm)), m.__setitem__(nm, new(nm)))))
+          ops.append(('track[%s, 0] = v' % nm, lambda t, m, nm=nm: (t.call('__setitem__', (nm, 0), Tok('two', nm)), m[nm].__setitem__(0, Tok('two', nm))) if nm in m else None))
+          ops.append(('track[%s] = #DELETE' % nm, lambda t, m, nm=nm: (t.call('__setitem__', nm, '#DELETE'), m.pop(nm)) if nm in m else None))
+          ops.append(('addListToAF %s <- list' % nm, lambda t, m, nm=nm: (fn['__name__']('addListToAF')(t, nm, new(nm)), m.__setitem__(nm, new(nm))) if nm in m else None))
+          ops.append(('addListToAF %s <- array' % nm, lambda t, m, nm=nm: (fn['__name__']('addListToAF')(t, nm, ArrayLike(new(nm))), m.__setitem__(nm, new(nm))) if nm in m else None))
+      if NOBS >= 3:
+          def op_resample(t, m):
+              t.call('resample', 12.0, 1, 1)          # delta, ALGO_LINEAR, MODE_SPATIAL
+              m.clear()
+              return 'resample'
+          ops.append(('resample(delta, linear, spatial): the table is documented to be reset', op_resample))
+      if bad:
+        break
+      try:
+          for st in states:
+              for label, op in ops:
+                  t, model, dk = build(st, NOBS)
+                  try:
+                      r = op(t, model)
+                  except orders.Unsupported:
+                      raise
+                  if r is None:
+                      continue
+                  n_tr += 1
+                  case = {'table before (name -> column)': {nm: c for c, nm in enumerate(st)}, 'operation': label}
+                  if r == 'resample':
+                      names = t.call('getListAnalyticalFeatures')
+                      widths = [len(o.features) for o in t.fields['_Track__POINTS']]
+                      if names or any(widths):
+                          bad = dict(case, **{'names listed after': names, 'values carried per observation after': widths,
+                                              'why': 'the table is reset by resampling: an observation that keeps old values shifts every feature created afterwards by that many columns'})
+                          break
+                      continue
+                  names, vals, widths, cols, frame = observe(t, dk, NOBS)
+                  if sorted(names) != sorted(model) or len(set(names)) != len(names):
+                      bad = dict(case, **{'names listed after': names, 'expected': sorted(model)})
+                  elif any(w_ != len(model) for w_ in widths) or cols != list(range(len(model))):
+                      bad = dict(case, **{'values per observation': widths, 'columns registered': cols, 'listed names': len(model),
+                                          'why': 'every observation carries exactly one value per listed feature and the columns are 0..n-1'})
+                  elif any(vals[nm] != model[nm] for nm in model):
+                      wrong = [nm for nm in model if vals[nm] != model[nm]][0]
+                      bad = dict(case, **{'feature': wrong, 'read': repr(vals[wrong]), 'last written': repr(model[wrong]),
+                                          'why': 'reading a feature returns the values last written under that name; no other feature changes'})
+                  elif frame != [(ENUCoords(10.0 * k, 3.0 * k, 0.0), Stamp(100.0 * k)) for k in range(NOBS)]:
+                      bad = dict(case, why='positions / timestamps changed')
+                  if bad:
+                      break
+              if bad:
+                  break
+          # derived tracks: later table changes on either side stay on that side
+          if not bad:
+              for st in states[1:]:
+                  t, model, dk = build(st, NOBS)
+                  e = t.call('extract', 0, LAST)
+                  label = 'e = track.extract(0, last); e.createAnalyticalFeature(q); e.removeAnalyticalFeature(%s)' % st[0]
+                  e.call('createAnalyticalFeature', 'q', Tok('scalar', 'q'))
+                  e.call('removeAnalyticalFeature', st[0])
+                  n_tr += 1
+                  names, vals, widths, cols, frame = observe(t, dk, NOBS)
+                  if sorted(names) != sorted(model) or cols != list(range(len(model))):
+                      bad = {'table before (name -> column)': {nm: c for c, nm in enumerate(st)},
+                             'operation': label,
+                             'names listed by the SOURCE track after': names, 'expected': sorted(model),
+                             'why': 'the derived track shares the name -> column dictionary of its source: the source now lists features its observations hold no value for'}
+                      break
+      except orders.Unsupported as ex:
+          raise shape_error('feature API not interpretable: %s' % ex, f0.loc())
+      except (IndexError, KeyError, TypeError, AttributeError, orders.Raised) as ex:
+          bad = {'table before (name -> column)': {nm: c for c, nm in enumerate(st)}, 'operation': label, 'exception': '%s: %s' % (type(ex).__name__, ex)}
+    ctx.check(bad is None, 'C01.H', f0,
+              'from each of the 16 reachable name -> column maps, every feature operation implements the model (names listed, one value per name and observation, '
+              'values last written are read back, nothing else changes) and lands in a reachable map: %d transitions' % n_tr, witness=bad, node=fT.node, key='transitions')
+    ctx.extra['C01.H transitions'] = n_tr
+
+
 RULES = [
+    ('C01.H', rule_H, 'quick'),
     ('C01.E', rule_E, 'quick'),
-    ('C01.P1', rule_P1, 'quick'),
-    ('C01.P2', rule_P2, 'quick'),
-    ('C01.P3', rule_P3, 'quick'),
     ('C01.W', rule_W, 'quick'),
     ('C01.F', rule_F, 'quick'),
     ('C01.T', rule_T, 'quick'),
